@@ -3,15 +3,16 @@ Path enumerations of `Market._execution` on a one-buy / one-sell book (see SrcMa
 `nf%` computes the pruned paths of the symbolic run of the *current* translated source, `rfl` makes
 the kernel re-check them.  Shape: buy market, sell limit.
 -/
+import PamsLemmas.EvalNf
 import PamsLemmas.SrcMarketDefs
 
 namespace Pams.Src
 open Pams Pams.Py
 set_option maxRecDepth 1000000
 
-theorem exec11_ff_ft : exec11Paths false false false true = nf% (exec11Paths false false false true) := by rfl
-theorem exec11_ft_ft : exec11Paths false true false true = nf% (exec11Paths false true false true) := by rfl
-theorem exec11_tf_ft : exec11Paths true false false true = nf% (exec11Paths true false false true) := by rfl
-theorem exec11_tt_ft : exec11Paths true true false true = nf% (exec11Paths true true false true) := by rfl
+theorem exec11_ff_ft : exec11Paths false false false true = evalnf% (exec11Paths false false false true) := by kernel_rfl
+theorem exec11_ft_ft : exec11Paths false true false true = evalnf% (exec11Paths false true false true) := by kernel_rfl
+theorem exec11_tf_ft : exec11Paths true false false true = evalnf% (exec11Paths true false false true) := by kernel_rfl
+theorem exec11_tt_ft : exec11Paths true true false true = evalnf% (exec11Paths true true false true) := by kernel_rfl
 
 end Pams.Src
